@@ -1,5 +1,6 @@
-import FitProps.WriterLemmas
+import FitProps.WriterOutcomeLemmas
 import FitModel.Integrity
+import FitProps.C09
 /-!
 # C11 — Destination failures surface as errors; incomplete output is never a valid file
 
@@ -35,6 +36,38 @@ theorem C11_write_error_surfaces (F : Faults) (w : W) (p : Bytes) (hg : w.Good) 
     cases hok : (w.write F p).2.2 with
     | false => rfl
     | true => exact absurd ((write_appended F w p hg).clean ⟨hall, hb⟩ hok) (not_clean_of_faulted hf)
+
+theorem clean_of_not_faulted {w : W} (h : ¬ Faulted w.d) (hb : w.berr = false) : w.Clean := by
+  refine ⟨?_, hb⟩
+  intro op hop
+  cases hk : op.ok with
+  | true => rfl
+  | false => exact absurd ⟨op, hop, hk⟩ h
+
+/-- ERRORS SURFACE, batch: whatever the writer kind, the buffer size, the chain and the fault schedule — if any operation
+of the destination failed (a write, a write-at or a seek; having taken none, some or all of its bytes; at any point:
+header, records, CRC, the buffered writer's flushes, the header rewrite, the final flush), then the `Encode` call
+during which it happened returned an error: the chaining loop does not report success. -/
+theorem C11_error_surfaces_batch (F : Faults) (o : Opts) (kind : Kind) (size : Nat) (d₀ : Dest) (n₀ : Nat) (fs : List FitIn)
+    (hend : d₀.pos = d₀.content.length) (hlog : ¬ Faulted d₀) (hown : kind = .at → n₀ = d₀.content.length)
+    (hf : Faulted (encodeChainW F o (Fit.C09.encOn o kind size d₀ n₀) fs).1.w.d) :
+    (encodeChainW F o (Fit.C09.encOn o kind size d₀ n₀) fs).2.2 = false := by
+  obtain ⟨_, _, _, _, h5, _⟩ := chain_spec F o fs _ (Fit.C09.encOn_ready o kind size d₀ n₀ hend hown)
+  cases hok : (encodeChainW F o (Fit.C09.encOn o kind size d₀ n₀) fs).2.2 with
+  | false => rfl
+  | true => exact absurd (h5 (clean_of_not_faulted hlog rfl) hok) (not_clean_of_faulted hf)
+
+/-- … and it is not vacuous the other way round: with no fault every call succeeds (C09_same_bytes_batch), and a
+successful run has seen no failed operation. -/
+theorem C11_success_means_no_fault (F : Faults) (o : Opts) (kind : Kind) (size : Nat) (d₀ : Dest) (n₀ : Nat) (fs : List FitIn)
+    (hend : d₀.pos = d₀.content.length) (hlog : ¬ Faulted d₀) (hown : kind = .at → n₀ = d₀.content.length)
+    (hok : (encodeChainW F o (Fit.C09.encOn o kind size d₀ n₀) fs).2.2 = true) :
+    ¬ Faulted (encodeChainW F o (Fit.C09.encOn o kind size d₀ n₀) fs).1.w.d ∧
+    (encodeChainW F o (Fit.C09.encOn o kind size d₀ n₀) fs).1.w.d.content = d₀.content ++ encodeChain o (fitsOf fs) := by
+  obtain ⟨_, _, _, h4, _, _⟩ := chain_spec F o fs _ (Fit.C09.encOn_ready o kind size d₀ n₀ hend hown)
+  refine ⟨fun hf => ?_, (h4 hok).2.2⟩
+  have := C11_error_surfaces_batch F o kind size d₀ n₀ fs hend hlog hown hf
+  rw [hok] at this; cases this
 
 /-! ### finding KF-C11-1 (DESIGN §4 F13): the stream encoder's kept header -/
 
